@@ -322,6 +322,7 @@ class Resample(ResampleModel):
             p.prove(z3.BoolVal(gen is g["rng"]), f"{q}:C20:the generator supplied by the caller is the one used")
         else:
             p.prove(z3.BoolVal(isinstance(gen, Sym) and gen.tag == "rng" and gen.info.get("ambient", False)), f"{q}:C20:ambient generator only when none was supplied")
+        p.prove(z3.BoolVal(not any(e[0] == "ambient.random" for e in p.events)), f"{q}:C20:nothing is drawn from a library-global random generator (every namespace)")
         # p == exp(lw - logsumexp(lw)) with lw = log_weights(beta) of THIS population at the NEW temperature
         lw = iw_arr(I, Obj("SMCSamples", snap), g["beta"], shifted=True)
         want = Arr(lw.n, "real", lambda k: uf("exp", RS, RS)(lw.at(k) - red("LSE", lw)), "want_p")
@@ -391,8 +392,9 @@ class RejectionSample(Contract):
         p, g = I.path, pre.ghost
         q = self.qual
         snap = g["snapshot"]
+        p.prove(z3.BoolVal(not any(e[0] == "ambient.random" for e in p.events)), f"{q}:C20:nothing is drawn from a library-global random generator (in any namespace)")
         un = [e for e in p.events if e[0] == "rng.uniform"]
-        p.prove(z3.BoolVal(len(un) == 1), f"{q}:C02:exactly one vector of uniform draws")
+        p.prove(z3.BoolVal(len(un) == 1), f"{q}:C02:C20:exactly one vector of uniform draws, from a generator object")
         if len(un) != 1:
             return
         _, gen, size, u = un[0]
